@@ -79,3 +79,11 @@ CORPUS += [
     Mut('c16-benign-step-size-reported-inside-the-proposal', 'torchtree/inference/hmc/operator.py', '', "        max_trials = 10\n        trial = 0\n",
         "        if self._accept + self._reject == 0:\n            print(f'Step size: {self.id} = {self._integrator.step_size}')\n        max_trials = 10\n        trial = 0\n", mode='text', benign=True),
 ]
+CORPUS += [
+    Mut('c16-momentum-mixed-after-the-starting-energy', 'torchtree/inference/hmc/operator.py', '', "                ham0 = potential_energy0 + kinetic_energy0\n",
+        "                ham0 = potential_energy0 + kinetic_energy0\n                if getattr(self, '_previous_momentum', None) is not None:\n                    momentum = 0.5 * self._previous_momentum + math.sqrt(0.75) * momentum\n",
+        mode='text', expect=[('C16.K', 'HMCOperator._step::kinetic-energies-bracket-the-integrator')]),
+    Mut('c16-benign-momentum-mixed-before-the-starting-energy', 'torchtree/inference/hmc/operator.py', '', "            momentum = self._hamiltonian.sample_momentum(self.mass_matrix)\n            try:\n",
+        "            momentum = self._hamiltonian.sample_momentum(self.mass_matrix)\n            if getattr(self, '_previous_momentum', None) is not None:\n                momentum = 0.5 * self._previous_momentum + math.sqrt(0.75) * momentum\n            try:\n",
+        mode='text', benign=True),
+]
